@@ -301,6 +301,7 @@ def run(ctx):
     P = 'C10'
     stream.r_lost(ctx, P, 'S10-1')
     leading_text_skip(ctx, P)
+    stream.zero_result_of_empty_request(ctx, P)
     b = ctx.body('armor::reader::Dearmor::<R>::read_footer')
     if b is not None:
         oks = ok_exit_blocks(b)
